@@ -103,7 +103,7 @@ class Checker:
                 except Exception: pass
     # ------------------------------------------------------------------
     def split(self, op):
-        pre = []; guards = []; cbs = []; enters = []; plines = []; llines = []; self.pl = []; self.rl = []; self.dumps = {}; self.cdumps = {}; lastq = None; self.cj = []; self.klines = []; self.ylist = []; self.vflag = None; self.bytes = None
+        pre = []; guards = []; cbs = []; enters = []; plines = []; llines = []; self.pl = []; self.rl = []; self.dumps = {}; self.cdumps = {}; self.hdumps = {}; lastq = None; self.cj = []; self.klines = []; self.ylist = []; self.vflag = None; self.bytes = None
         for t, a in op.lines:
             if t == 'c': cbs.append((a[0], a[1])); self.cj.append(('c', a[0], a[1]))
             elif t == 'j': self.cj.append(('j', a[0], a[1]))
@@ -112,8 +112,8 @@ class Checker:
                 phase = 1 if (guards or any(me in LIFE for me, _ in cbs)) else 0
                 self.pl.append((t, a, cbs[-1] if cbs else None, phase))
             elif t == 'r': self.rl.append(tuple(a))
-            elif t == 'J' or t == 'C':
-                v = a[2:]; (self.dumps if t == 'J' else self.cdumps)[a[0]] = (a[1], [tuple(v[i:i + 4]) for i in range(0, len(v), 4)])
+            elif t == 'J' or t == 'C' or t == 'I':
+                v = a[2:]; (self.dumps if t == 'J' else self.cdumps if t == 'C' else self.hdumps)[a[0]] = (a[1], [tuple(v[i:i + 4]) for i in range(0, len(v), 4)])
             elif t == 't':
                 if lastq is not None and (lastq[0], lastq[1], lastq[3]) == (a[0], a[1], a[2]): lastq = None
                 elif not guards: pre.append(('T', a[0], a[1], a[2])); self.pl.append(('t', a, None, 0))
@@ -257,6 +257,7 @@ class Checker:
         if processed and before and kind in ('UPDATE', 'REACT', 'REACT2', 'IMMEDIATE'): self.postcondition(op, m, pre, guards, rounds, before, prev_op, queued_before)
         # ---- C12: resolutions
         self.selection(op, m, cfg_ok)
+        if 'random-walk-fell-off' in m.notes: self.stats['C12.random-walks-that-fell-off-the-end(rounding)'] += m.notes.count('random-walk-fell-off')
         # ---- C12: number of generator calls
         if m.ans.draws != op.draws:
             self.v('C12', 'draws|count-differs', op, {'expected': m.ans.draws, 'observed': op.draws})
@@ -284,6 +285,7 @@ class Checker:
         # ---- C09 history
         if op.prev is not None: self.history(op, kind, m, rounds, cbs, before)
         # ---- C13 queries
+        self.last_guards = guards
         self.queries(op, kind, plines, rounds, cbs, before, m)
         # ---- C14 payloads
         self.payloads(op, kind, m, guards, enters, llines, prev_op, pre)
@@ -458,7 +460,7 @@ class Checker:
         if self.dumps and getattr(self, 'plan_unjudged', False): pt.restore(self.dumps)
         elif self.dumps:
             self.stats['C07.plan-comparisons'] += len(self.dumps)
-            pt.compare(self.dumps, self.cdumps, viol)
+            pt.compare(self.dumps, self.cdumps, viol, self.hdumps)
             key = tuple((r, tuple(t[3] for t in pt.plans[r])) for r in sorted(pt.plans) if pt.plans[r])
             if key: self.nontrivial['C07'].add(key)
             tot = sum(n for n, _ in self.dumps.values())
@@ -640,6 +642,7 @@ class Checker:
         # independent exact-arithmetic check of every weighted draw the interpreter resolved
         for node, utils, ranks, top, r, chosen in m.random_cases:
             self.stats['C12.random-draws-checked'] += 1
+            if any(u == 0 and ranks[i] == top for i, u in enumerate(utils)): self.stats['C12.random-draws-with-a-zero-utility-top-rank-candidate'] += 1
             U = [Fraction(u) for u in utils]; S = sum(U); x = Fraction(r) * S
             key = (tuple(ranks), tuple(utils), r)
             self.nontrivial['C12'].add((node,) + key)
@@ -816,16 +819,24 @@ class Checker:
         for x in self.nodes:
             if x['kind'] == 'C' and sum(1 for c in x['children'] if op.res[c] == '1') > 1: self.v('C13', 'resumable|two-resumable-substates', op, x['id'])
         self.stats['C13.quiescent-checks'] += 1
-        if plines and before and len(rounds) == 1 and not rounds[0]['vetoed'] and len(rounds[0]['ids']) == 1 and kind in ('UPDATE', 'REACT', 'REACT2', 'IMMEDIATE'):
-            pos, (pe, px, pc) = plines[0]
+        # the one approved round of the step, preceded by vetoed rounds only (a veto changes nothing, so before -> after is that round's doing)
+        judged = None
+        if plines and before and rounds and not rounds[-1]['vetoed'] and len(rounds[-1]['ids']) == 1 and all(r['vetoed'] for r in rounds[:-1]) and kind in ('UPDATE', 'REACT', 'REACT2', 'IMMEDIATE') and 'leftover' not in m.notes:
+            if len(rounds) == 1: judged = plines[0]
+            else:
+                gl = getattr(self, 'last_guards', [])
+                for pos, vec in plines:
+                    if 0 < pos <= len(gl) and gl[pos - 1]['pend'] == rounds[-1]['ids']: judged = (pos, vec)
+                if judged is not None: self.stats['C13.guard-vector-checks-in-substitute-rounds'] += 1
+        if judged is not None:
+            pos, (pe, px, pc) = judged
             exited = set(s for me, s in cbs if me == EXIT); entered = set(s for me, s in cbs if me == ENTER)
             both = exited & entered
             exp_e = set(s for s in range(self.n) if op.act[s] == '1' and before[0][s] != '1')
             exp_x = set(s for s in range(self.n) if op.act[s] != '1' and before[0][s] == '1')
             obs_e = set(i for i, c in enumerate(pe) if c == '1'); obs_x = set(i for i, c in enumerate(px) if c == '1'); obs_c = set(i for i, c in enumerate(pc) if c == '1')
-            dont = set(both)
-            for s in list(both):   # everything below a re-run state is exited and entered again
-                dont |= set(self.subtree(s))
+            dont = set()
+            exp_e |= both; exp_x |= both
             self.stats['C13.guard-vector-checks'] += 1
             self.nontrivial['C13'].add((before[0], op.act))
             if (obs_e - dont) != (exp_e - dont): self.v('C13', 'pending|isPendingEnter-differs-from-states-entered', op, {'extra': sorted(obs_e - exp_e - dont)[:6], 'missing': sorted(exp_e - obs_e - dont)[:6]})
@@ -916,7 +927,7 @@ def main():
     if header is None:
         print(json.dumps({'error': 'no header'})); return 2
     seed = int(header[3]); manual = header[4] == '1'; subst = int(header[5])
-    knobs = {k: int(v) for k, v in kv.items() if k in ('zeroUtil', 'palette')}
+    knobs = {k: int(v) for k, v in kv.items() if k in ('zeroUtil', 'palette', 'fineUtil')}
     dev = tuple(x for x in kv.get('dev', '').split(',') if x)
     chk = Checker(shape, seed, knobs, subst, manual, dev)
     chk.run(ops)
